@@ -65,6 +65,21 @@ func genPipe(c *Config, r *rand.Rand) {
 		c.Dests[i].NackPct = pick(r, 0, 0, 0, 5, 20, 50)
 	}
 	c.DLQ.NackPct = pick(r, 0, 0, 0, 0, 10)
+	if r.IntN(5) == 0 || (c.Focus == "C07" && r.IntN(2) == 0) {
+		// dead-letter bursts: many consecutive nacks in one batch, a DLQ that rejects some of
+		// them, a window wide enough (or disabled) for the run to go on
+		for i := range c.Dests {
+			c.Dests[i].NackPct = pick(r, 50, 80, 100)
+		}
+		c.DLQ.NackPct = pick(r, 0, 20, 40, 60)
+		c.DLQ.WindowSize = pick(r, 0, 0, 6, 10)
+		if c.DLQ.WindowSize > 0 {
+			c.DLQ.Threshold = c.DLQ.WindowSize - 1
+		}
+		for i := range c.Sources {
+			c.Sources[i].MaxBatch = 3 + r.IntN(6)
+		}
+	}
 	// processor error scripts (records the DLQ must absorb)
 	if r.IntN(3) == 0 {
 		ps := allProcs(c)
